@@ -15,64 +15,46 @@ From Coq Require Import List Bool ZArith Arith Lia.
 Require Import RV.model.VmRun RV.proofs.VmRunProofs.
 Import ListNotations.
 
-(* Every invocation of every history - after normal ends, errors at any depth, recovered panics, frame or
-   stack exhaustion, cancellation, and under every placement of cancel(ctx_j) and of watcher firings,
-   stale or not - gives exactly what a new VM gives; the one exception is a Run() that has to resume the main
-   code at the instruction pointer an earlier RunCode left behind (outcome OWild, see C07_refuted_run_after_runcode). *)
-Theorem C07_independent_or_wild : forall (g : Z) (h : list item) (b : obs),
-  In b (exec0 cfg_current g h) ->
-  o_out b = fresh_outcome cfg_current b \/
-  (o_out b = OWild /\ iapi (o_inv b) = ARun /\ ipok (o_vm b) = false).
+(* Every invocation of every history of RunCode, Run and Call - after normal ends, errors at any depth, recovered
+   panics, frame or stack exhaustion, cancellation, failed imports, and under every placement of cancel(ctx_j),
+   of watcher firings (stale or not) and of refused concurrent invocations - gives exactly what a new VM gives. *)
+Theorem C07_independent : forall (g : Z) (h : list item) (b : obs),
+  In b (exec0 cfg_current g h) -> o_out b = fresh_outcome cfg_current b.
 Proof. exact independent_current. Qed.
-
-(* Guarded form; the guard is decidable on the observation: the invocation is not a Run, or no RunCode has
-   moved the instruction pointer away from the main code. *)
-Theorem C07_guarded : forall (g : Z) (h : list item) (b : obs),
-  In b (exec0 cfg_current g h) -> (iapi (o_inv b) <> ARun \/ ipok (o_vm b) = true) ->
-  o_out b = fresh_outcome cfg_current b.
-Proof. exact guarded_current. Qed.
-
-(* The two ways a VM is reused in practice satisfy the guard for every invocation:
-   embedding (any sequence of RunCode and Call) ... *)
-Theorem C07_independent_runcode_call : forall (g : Z) (h : list item) (b : obs),
-  existsb inv_is_run h = false -> In b (exec0 cfg_current g h) -> o_out b = fresh_outcome cfg_current b.
-Proof. exact independent_without_run. Qed.
-(* ... and the REPL (any sequence of Run and Call). *)
-Theorem C07_independent_run_call : forall (g : Z) (h : list item) (b : obs),
-  existsb inv_is_runcode h = false -> In b (exec0 cfg_current g h) -> o_out b = fresh_outcome cfg_current b.
-Proof. exact independent_without_runcode. Qed.
 
 (* "Events that concern an earlier invocation never cut a later one short": the reference outcome itself does not
    depend on them - on a VM created for the invocation, deleting every event except cancel(own context) and the
-   firing of its own watcher changes nothing.  With C07_guarded: the k-th outcome on the shared VM is a function of
+   firing of its own watcher changes nothing.  With C07_independent: the k-th outcome on the shared VM is a function of
    the invocation, the globals, and the events of its own context alone. *)
 Theorem C07_foreign_events_irrelevant : forall (e : env) (g : Z) (i : inv),
   env_ok e ->
-  fresh_of true e g i = fresh_of true e g (mkInv (iapi i) (ibody i) (ictx i) (own_gates e i)).
+  fresh_of true e g i = fresh_of true e g (mkInv (iapi i) (ibody i) (ictx i) (own_gates e i) (iimport i)).
 Proof. exact (foreign_events_irrelevant true). Qed.
 (* every state a history reaches satisfies that hypothesis *)
 Theorem C07_env_ok_reachable : forall (g : Z) (h : list item) (b : obs), In b (exec0 cfg_current g h) -> env_ok (o_env b).
-Proof. intros g h b I. destruct (exec0_cfgd true g h b I) as (_ & _ & _ & _ & E & _). exact E. Qed.
+Proof. intros g h b I. destruct (exec0_cfgd true g h b I) as (_ & _ & _ & _ & _ & E). exact E. Qed.
 
 (* The halt-flag invariant: the flag the current run polls is set only by a watcher of the current run's own
-   context, after that context was cancelled - so no run is ever cut short with a nil error (OStale), and
-   no invocation of a sequential history finds the VM "already running". *)
+   context, after that context was cancelled - so no run is ever cut short with a nil error (OStale), no
+   invocation of a sequential history finds the VM "already running", and no Run starts at a foreign position. *)
 Theorem C07_no_silent_halt : forall (g : Z) (h : list item) (b : obs),
-  In b (exec0 cfg_current g h) -> o_out b <> OStale /\ o_out b <> OBusy.
+  In b (exec0 cfg_current g h) -> o_out b <> OStale /\ o_out b <> OBusy /\ o_out b <> OWild.
 Proof. exact no_silent_halt. Qed.
 
 (* stop(), resumeFrame and resetForNewCode have put (running, fp, sp) back before every invocation:
-   not running, frame 0, stack pointer inside the array; a VM that never ran has an empty stack. *)
+   not running, frame 0, stack pointer inside the array, the module globals importable; a VM that never ran has
+   an empty stack. *)
 Theorem C07_state_restored : forall (g : Z) (h : list item) (b : obs),
   In b (exec0 cfg_current g h) ->
   running (o_vm b) = false /\ H (o_vm b) <= MaxStack /\ FP (o_vm b) = 0 /\
-  (startCount (o_vm b) = 0 -> H (o_vm b) = 0).
+  (startCount (o_vm b) = 0 -> H (o_vm b) = 0) /\ mods (o_vm b) = true.
 Proof. exact restored_between_runs. Qed.
 
-(* ------------------------------------------------------------------ the full statement is false of the code as it is *)
-Definition rc (e : expr) (c : nat) := IInv (mkInv ARunCode e c []).
-Definition rn (e : expr) (c : nat) := IInv (mkInv ARun e c []).
-Definition cl (e : expr) (c : nat) := IInv (mkInv ACall e c []).
+(* ------------------------------------------------------------------ regression: the code without each repair *)
+Definition rc (e : expr) (c : nat) := IInv (mkInv ARunCode e c [] false).
+Definition rn (e : expr) (c : nat) := IInv (mkInv ARun e c [] false).
+Definition cl (e : expr) (c : nat) := IInv (mkInv ACall e c [] false).
+Definition rci (e : expr) (c : nat) := IInv (mkInv ARunCode e c [] true).   (* import m; e *)
 Definition some_differs (cfg : config) (h : list item) : bool := existsb (differs cfg) (exec0 cfg 0%Z h).
 
 (* [differs] is exactly "the outcome on the shared VM is not the outcome on a new VM" *)
@@ -86,22 +68,35 @@ Lemma some_differs_witness cfg h :
   some_differs cfg h = true -> exists b, In b (exec0 cfg 0%Z h) /\ differs cfg b = true.
 Proof. intros E. apply existsb_exists. exact E. Qed.
 
-(* Run, RunCode, Run: the second Run starts the main code at the instruction pointer of the RunCode's code *)
+(* without 02032cf (Run resumed the main code at vm.ip): Run, RunCode, Run - the second Run starts the main code at
+   the instruction pointer of the RunCode's code *)
 Definition h_run_runcode_run : list item := [rn (Lit 5) 0; rc (ListN 3 (Lit 6)) 0; rn (Lit 7) 0].
-Theorem C07_refuted_run_after_runcode : exists h b, In b (exec0 cfg_current 0%Z h) /\ differs cfg_current b = true.
+Theorem C07_norunip_refuted_run_after_runcode : exists h b, In b (exec0 cfg_norunip 0%Z h) /\ differs cfg_norunip b = true.
 Proof. exists h_run_runcode_run. apply some_differs_witness. vm_compute. reflexivity. Qed.
-Example C07_run_after_runcode_outcomes :
-  map (fun b => (o_out b, fresh_outcome cfg_current b)) (exec0 cfg_current 0%Z h_run_runcode_run) =
+Example C07_norunip_outcomes :
+  map (fun b => (o_out b, fresh_outcome cfg_norunip b)) (exec0 cfg_norunip 0%Z h_run_runcode_run) =
   [(OVal (Some 5%Z), OVal (Some 5%Z)); (OVal (Some 6%Z), OVal (Some 6%Z)); (OWild, OVal (Some 7%Z))].
 Proof. vm_compute. reflexivity. Qed.
+Example C07_run_after_runcode_repaired : some_differs cfg_current h_run_runcode_run = false.
+Proof. vm_compute. reflexivity. Qed.
 
-(* ------------------------------------------------------------------ regression: the code before each repair *)
-(* before c13bc4b (start() kept the operand stack): independent except that a Call or Run could exhaust the
+(* without 0029df9 (resetForNewCode emptied vm.modules): `import m` of a module global works in the first RunCode
+   on a VM and fails with "imports are disabled" in every later one *)
+Definition h_import_twice : list item := [rci (Lit 5) 0; rci (Lit 6) 0; IInv (mkInv ACall (Lit 7) 0 [] true)].
+Theorem C07_nomods_refuted_import : exists h b, In b (exec0 cfg_nomods 0%Z h) /\ differs cfg_nomods b = true.
+Proof. exists h_import_twice. apply some_differs_witness. vm_compute. reflexivity. Qed.
+Example C07_nomods_outcomes :
+  map (fun b => (o_out b, fresh_outcome cfg_nomods b)) (exec0 cfg_nomods 0%Z h_import_twice) =
+  [(OVal (Some 5%Z), OVal (Some 5%Z)); (OErr EImport, OVal (Some 6%Z)); (OErr EImport, OVal (Some 7%Z))].
+Proof. vm_compute. reflexivity. Qed.
+Example C07_import_repaired : some_differs cfg_current h_import_twice = false.
+Proof. vm_compute. reflexivity. Qed.
+
+(* without c13bc4b (start() kept the operand stack): independent except that a Call or Run could exhaust the
    stack that earlier failed invocations had left operands on *)
 Theorem C07_nodrop_independent_or_stack : forall (g : Z) (h : list item) (b : obs),
   In b (exec0 cfg_nodrop g h) ->
-  o_out b = fresh_outcome cfg_nodrop b \/ (o_out b = OErr EStack /\ iapi (o_inv b) <> ARunCode) \/
-  (o_out b = OWild /\ iapi (o_inv b) = ARun /\ ipok (o_vm b) = false).
+  o_out b = fresh_outcome cfg_nodrop b \/ (o_out b = OErr EStack /\ iapi (o_inv b) <> ARunCode).
 Proof. exact independent_nodrop. Qed.
 (* ... a RunCode that fails with 600 operands pending, then a Call that needs 600 slots *)
 Definition h_residue : list item := [rc (ListN 600 Raise) 0; cl (ListN 600 (Lit 1)) 1].
@@ -128,7 +123,7 @@ Proof. split; vm_compute; reflexivity. Qed.
 (* pinned tree (one halt field per VM, written by every watcher): run 1 ends, its context is cancelled while
    run 2 is inside a host builtin, watcher 1 fires: run 2 is cut short and returns a nil error *)
 Definition h_stale : list item :=
-  [rc (Lit 5) 0; IInv (mkInv ARunCode (Seq Gate (Lit 7)) 1 [[Cancel 0; Fire 0]])].
+  [rc (Lit 5) 0; IInv (mkInv ARunCode (Seq Gate (Lit 7)) 1 [[Cancel 0; Fire 0]] false)].
 Theorem C07_pinned_refuted_stale_watcher : exists h b, In b (exec0 cfg_pinned 0%Z h) /\ differs cfg_pinned b = true.
 Proof. exists h_stale. apply some_differs_witness. vm_compute. reflexivity. Qed.
 Example C07_pinned_stale_outcomes :
@@ -140,9 +135,9 @@ Proof. vm_compute. reflexivity. Qed.
 (* the pinned tree also let resetForNewCode erase a cancellation that arrived before the reset: the run's own
    context is cancelled and its watcher fires before RunCode starts; the second RunCode on the VM spins forever *)
 Definition h_erased : list item :=
-  [rc (Lit 5) 0; IEnv (Cancel 1); IInv (mkInv ARunCode Spin 1 [[Fire 1]; []; []])].
+  [rc (Lit 5) 0; IEnv (Cancel 1); IInv (mkInv ARunCode Spin 1 [[Fire 1]; []; []] false)].
 
-(* before 7c03eb9 (push incremented sp first): after one stack exhaustion inside a call every later Call fails *)
+(* without 7c03eb9 (push incremented sp first): after one stack exhaustion inside a call every later Call fails *)
 Definition h_overflow : list item := [rc (Lit 5) 0; cl (fact 5) 1; cl (fact 1100) 2; cl (fact 5) 3].
 Theorem C07_nopush_refuted_overflow : exists h b, In b (exec0 cfg_nopush 0%Z h) /\ differs cfg_nopush b = true.
 Proof. exists h_overflow. apply some_differs_witness. vm_compute. reflexivity. Qed.
@@ -157,24 +152,23 @@ Proof. vm_compute. reflexivity. Qed.
 (* a history with a cancelled spin, a stale cancellation inside a later run, a recovered panic at depth 3 with
    operands pending, frame exhaustion and stack exhaustion: all seven invocations are observed *)
 Definition h_mixed : list item :=
-  [ IInv (mkInv ARunCode (Seq Gate Spin) 0 [[]; [Cancel 0]; [Fire 0]]);
-    IInv (mkInv ARunCode (Seq Gate (Bin GetG (Lit 7))) 1 [[Cancel 0; Fire 0]]);
+  [ IInv (mkInv ARunCode (Seq Gate Spin) 0 [[]; [Cancel 0]; [Fire 0]] false);
+    IInv (mkInv ARunCode (Seq Gate (Bin GetG (Lit 7))) 1 [[Cancel 0; Fire 0; Reenter]] true);
     cl (at_depth 3 (ListN 4 HostPanic)) 2;
     IEnv (Cancel 1); IEnv (Fire 1);
     cl (deep 1100) 3;
     cl (fact 1100) 3;
     rc (Seq (AddG 2) GetG) 4;
-    IInv (mkInv ACall (Seq Gate (Lit 3)) 1 [[Fire 6]]) ].
+    IInv (mkInv ACall (Seq Gate (Lit 3)) 1 [[Fire 6]] true) ].
 Example C07_mixed_outcomes :
   map o_out (exec0 cfg_current 0%Z h_mixed) =
   [OErr ECtx; OVal (Some 7%Z); OErr EHost; OErr EFrames; OErr EStack; OVal (Some 2%Z); OErr ECtx].
 Proof. vm_compute. reflexivity. Qed.
-Example C07_mixed_guard : existsb inv_is_run h_mixed = false.
-Proof. reflexivity. Qed.
-Definition h_repl : list item :=
-  [ rn (Seq (AddG 2) GetG) 0; rn (at_depth 2 Raise) 0; cl (Lit 4) 1; IEnv (Cancel 0); IEnv (Fire 0); IEnv (Fire 1);
-    IInv (mkInv ARun (Seq Gate GetG) 2 [[Fire 2]]) ].
-Example C07_repl_outcomes :
-  existsb inv_is_runcode h_repl = false /\
-  map o_out (exec0 cfg_current 0%Z h_repl) = [OVal (Some 2%Z); OErr ERuntime; OVal (Some 4%Z); OVal (Some 2%Z)].
-Proof. split; vm_compute; reflexivity. Qed.
+(* all three entry points mixed on one VM, Run after RunCode included *)
+Definition h_all : list item :=
+  [ rn (Seq (AddG 2) GetG) 0; rci (at_depth 2 Raise) 0; rn (Lit 9) 0; cl (Lit 4) 1; IEnv (Cancel 0); IEnv (Fire 0);
+    IEnv (Fire 1); IEnv (Fire 2); rci GetG 3; IInv (mkInv ARun (Seq Gate GetG) 2 [[Fire 5]] true) ].
+Example C07_all_outcomes :
+  map o_out (exec0 cfg_current 0%Z h_all) =
+  [OVal (Some 2%Z); OErr ERuntime; OVal (Some 9%Z); OVal (Some 4%Z); OVal (Some 2%Z); OVal (Some 2%Z)].
+Proof. vm_compute. reflexivity. Qed.
